@@ -1,12 +1,13 @@
 (* Executable model of
      hub.go             GetRealUserIP / Hub.getRealUserIP
-     allowed_ips.go     AllowedIps.Allowed (net.IPNet.Contains), the default lists
+     allowed_ips.go     ParseAllowedIps / parseIPNet (configuration strings),
+                        AllowedIps.Allowed (net.IPNet.Contains), the default lists
      backend_server.go  allowStatsAccess / validateStatsRequest (stats, serverinfo, metrics)
      proxy/proxy_server.go  allowStatsAccess / validateStatsRequest (stats, metrics)
    No proofs here.
 
    Library behaviour that is not ours to model is a parameter of the section
-   (never an axiom): net.ParseIP and net.SplitHostPort.  strings.Split,
+   (never an axiom): net.ParseIP, net.SplitHostPort and net.ParseCIDR.  strings.Split,
    strings.Join, strings.TrimSpace and slices.Reverse are modelled concretely. *)
 From Coq Require Import List NArith Bool String Ascii.
 From Verif Require Import gen.Params.
@@ -147,17 +148,63 @@ Inductive op :=
 | ORealIP (trusted : option (list net)) (peer : string) (xr xff : list string)
 | OStats (endpoint : N) (trusted allow : list net) (peer : string) (xr xff : list string)
 | OAllowed (nets : list net) (a : ip)
-| ODefaults.
+| ODefaults
+(* the same with the configuration as the text the administrator wrote
+   (app.trustedproxies, stats.allowed_ips): the lists are parsed by the model *)
+| OCfgRealIP (cfg : option string) (peer : string) (xr xff : list string)   (* GetRealUserIP(r, ParseAllowedIps(cfg)); None: nil list *)
+| OCfgHub (cfg : string) (peer : string) (xr xff : list string)             (* Hub.getRealUserIP, hub started or reloaded with cfg *)
+| OCfgStats (endpoint : N) (tcfg acfg : string) (peer : string) (xr xff : list string)
+| OCfgAllowed (cfg : string) (a : ip)                                        (* ParseAllowedIps(cfg).Allowed(a) *)
+| OCfgParse (cfg : string).                                                  (* ParseAllowedIps(cfg), as net.IPNet.Contains reads the result *)
 
 Inductive out :=
 | VAddr (s : string)
 | VStatus (c : N)
 | VBool (b : bool)
-| VNets (trusted stats : list net).
+| VNets (trusted stats : list net)
+| VReject                                  (* the configuration is refused (ParseAllowedIps returns an error) *)
+| VParsed (l : list net).
+
+(* ---- configuration strings (no library involved) --------------------------- *)
+Fixpoint has_slash (s : string) : bool :=
+  match s with
+  | EmptyString => false
+  | String c r => Ascii.eqb c "/" || has_slash r
+  end.
+
+(* an entry without prefix length is that single address: net.CIDRMask(len(ip)*8, len(ip)*8)
+   on the 16-byte form net.ParseIP returns, which net.IPNet.Contains reads as /32
+   for an IPv4(-mapped) address and as /128 otherwise *)
+Definition full_net (a : ip) : net := match a with V4 _ => (a, 32%N) | V6 _ => (a, 128%N) end.
+
+(* an empty list means "use the default" at every place a list is configured *)
+Definition or_default (d l : list net) : list net := match l with [] => d | _ => l end.
 
 Section RealIP.
-(* net.ParseIP (None = nil) and net.SplitHostPort (host part when err == nil) *)
-Context (parse_ip : string -> option ip) (split_host_port : string -> option string).
+(* net.ParseIP (None = nil), net.SplitHostPort (host part when err == nil) and
+   net.ParseCIDR (the network, as net.IPNet.Contains reads it; None = error) *)
+Context (parse_ip : string -> option ip) (split_host_port : string -> option string)
+        (parse_cidr : string -> option net).
+
+(* parseIPNet *)
+Definition parse_ipnet (s : string) : option net :=
+  if has_slash s then parse_cidr s
+  else match parse_ip s with Some a => Some (full_net a) | None => None end.
+
+(* ParseAllowedIps: strings.Split(allowed, ","), TrimSpace, empty entries are
+   skipped, the first entry that does not parse makes the whole list an error *)
+Fixpoint parse_entries (l : list string) : option (list net) :=
+  match l with
+  | [] => Some []
+  | e :: r =>
+      let e' := trim e in
+      if String.eqb e' "" then parse_entries r
+      else match parse_ipnet e' with
+           | None => None
+           | Some n => match parse_entries r with Some ns => Some (n :: ns) | None => None end
+           end
+  end.
+Definition parse_allowed (cfg : string) : option (list net) := parse_entries (split_comma cfg).
 
 (* if host, _, err := net.SplitHostPort(s); err == nil { s = host } *)
 Definition strip_port (s : string) : string :=
@@ -217,12 +264,39 @@ Definition endpoint_status (endpoint : N) (trusted allow : list net) (peer : str
            (xr xff : list string) : N :=
   if allow_stats trusted allow peer xr xff then 200%N else 403%N.
 
+(* NewHub / Hub.Reload: app.trustedproxies, empty = DefaultTrustedProxies;
+   NewBackendServer / Reload, proxy: stats.allowed_ips, empty = DefaultAllowedIps() *)
+Definition hub_trusted (cfg : string) : option (list net) :=
+  match parse_allowed cfg with Some l => Some (or_default default_trusted l) | None => None end.
+Definition stats_allowed (cfg : string) : option (list net) :=
+  match parse_allowed cfg with Some l => Some (or_default default_stats_allowed l) | None => None end.
+
 Definition step (o : op) : out :=
   match o with
   | ORealIP t peer xr xff => VAddr (real_ip t peer xr xff)
   | OStats e t al peer xr xff => VStatus (endpoint_status e t al peer xr xff)
   | OAllowed nets a => VBool (allowed nets a)
   | ODefaults => VNets default_trusted default_stats_allowed
+  | OCfgRealIP None peer xr xff => VAddr (real_ip None peer xr xff)
+  | OCfgRealIP (Some cfg) peer xr xff =>
+      match parse_allowed cfg with
+      | Some t => VAddr (real_ip (Some t) peer xr xff)
+      | None => VReject
+      end
+  | OCfgHub cfg peer xr xff =>
+      match hub_trusted cfg with
+      | Some t => VAddr (real_ip (Some t) peer xr xff)
+      | None => VReject
+      end
+  | OCfgStats e tcfg acfg peer xr xff =>
+      match hub_trusted tcfg, stats_allowed acfg with
+      | Some t, Some al => VStatus (endpoint_status e t al peer xr xff)
+      | _, _ => VReject
+      end
+  | OCfgAllowed cfg a =>
+      match parse_allowed cfg with Some l => VBool (allowed l a) | None => VReject end
+  | OCfgParse cfg =>
+      match parse_allowed cfg with Some l => VParsed l | None => VReject end
   end.
 
 Definition run (ops : list op) : list out := map step ops.
